@@ -74,11 +74,6 @@ def specialNPrimeF (n : Nat) (p delta : α) : Option Nat :=
   if nat n / p ≥ lit c500 then none
   else specialNPrimeB (n + 1) p delta
 
-/-- which formula compute_approx_binomial_{lower,upper}_bound uses (independent of the number of std devs) -/
-inductive Branch where
-  | thetaOne | zero | one | gauss | nearOne | equiv | exact
-  deriving DecidableEq, Repr
-
 /-- compute_approx_binomial_lower_bound -/
 def approxLb (T : BinomTables) (n : Nat) (theta : α) (k : Nat) : Option α :=
   if BNum.eqb theta (nat 1) then some (nat n)
